@@ -73,7 +73,7 @@ def try_from_table(ctx, F):
         ctx.fail("C05.D1.tag-table", "try_from:shape", "Frame::try_from does not switch exactly once on the tag byte (%d switches)" % len(cands), b.span)
         return {}, b
     t = b.term(cands[0])
-    regs = K.exclusive_regions(b, [x[1] for x in t["targets"]] + [t["otherwise"]])
+    regs = K.exclusive_regions(b, [x[1] for x in t["targets"]] + [t["otherwise"]], cands[0])
     table = {}
     for val, tgt in t["targets"]:
         aggs = K.aggregates(b, FRAME, regs[tgt])
